@@ -790,6 +790,10 @@ def normalize_slice(idx, dim):
             if stop is not None and start is not None and stop < start:
                 stop = start
         elif step < 0:
+            if start < 0:
+                # ``slice.indices`` clips a start below ``-dim`` to -1:
+                # nothing is selected
+                return slice(0, 0, 1)
             if start >= dim - 1:
                 start = None
             if stop < 0:
